@@ -717,6 +717,10 @@ func explainAliasedExpr(sb *strings.Builder, n *ast.AliasedExpr, depth int) {
 				if hasNestedArrays && containsTuplesRecursive(exprs) {
 					needsFunctionFormat = true
 				}
+				// Also check for non-literal expressions at any depth within nested arrays
+				if hasNestedArrays && containsNonLiteralExpressionsRecursive(exprs) {
+					needsFunctionFormat = true
+				}
 				if needsFunctionFormat {
 					// Render as Function array with alias
 					fmt.Fprintf(sb, "%sFunction array (alias %s) (children %d)\n", indent, escapeAlias(n.Alias), 1)
